@@ -223,6 +223,10 @@ func planC16(c *Ctx, run int64) *Plan {
 				op.L = append(op.L, "stamp="+s+"=opt-value-of-"+s)
 			}
 		}
+		if Chance(r, 0.12) {
+			// a stamp list with a hole in it
+			op.L = append(op.L, "nullstamp")
+		}
 		if Chance(r, 0.3) {
 			op.L = append(op.L, "series=CORR")
 		}
@@ -246,14 +250,15 @@ func planC16(c *Ctx, run int64) *Plan {
 }
 
 type c16opts struct {
-	typ     string
-	reason  string
-	ext     map[string]string
-	stamps  [][2]string
-	series  string
-	date    string
-	copyTax bool
-	raw     bool
+	typ       string
+	reason    string
+	ext       map[string]string
+	stamps    [][2]string
+	series    string
+	date      string
+	copyTax   bool
+	raw       bool
+	nullStamp bool
 }
 
 func c16parseOpts(op Op) *c16opts {
@@ -274,13 +279,15 @@ func c16parseOpts(op Op) *c16opts {
 			o.date = f[5:]
 		case f == "copytax":
 			o.copyTax = true
+		case f == "nullstamp":
+			o.nullStamp = true
 		}
 	}
 	return o
 }
 
 func (o *c16opts) onlyType() bool {
-	return o.reason == "" && len(o.ext) == 0 && len(o.stamps) == 0 && o.series == "" && o.date == "" && !o.copyTax
+	return o.reason == "" && len(o.ext) == 0 && len(o.stamps) == 0 && !o.nullStamp && o.series == "" && o.date == "" && !o.copyTax
 }
 
 func (o *c16opts) jsonData() []byte {
@@ -291,8 +298,11 @@ func (o *c16opts) jsonData() []byte {
 	if len(o.ext) > 0 {
 		m["ext"] = o.ext
 	}
-	if len(o.stamps) > 0 {
-		var ss []map[string]string
+	if len(o.stamps) > 0 || o.nullStamp {
+		var ss []any
+		if o.nullStamp {
+			ss = append(ss, nil)
+		}
 		for _, s := range o.stamps {
 			ss = append(ss, map[string]string{"prv": s[0], "val": s[1]})
 		}
@@ -320,8 +330,11 @@ func (o *c16opts) goOptions() []schema.Option {
 	for _, k := range SortedKeys(o.ext) {
 		out = append(out, bill.WithExtension(cbc.Key(k), cbc.Code(o.ext[k])))
 	}
-	if len(o.stamps) > 0 {
+	if len(o.stamps) > 0 || o.nullStamp {
 		var ss []*head.Stamp
+		if o.nullStamp {
+			ss = append(ss, nil)
+		}
 		for _, s := range o.stamps {
 			ss = append(ss, &head.Stamp{Provider: cbc.Key(s[0]), Value: s[1]})
 		}
@@ -566,6 +579,28 @@ func execC16(x *X) {
 				x.Violate("source-changed:correct:"+GDiff(before, after), "correcting changed the source envelope; %s\n  history: %s", DiffDetail(before, after), H0)
 				return
 			}
+			if o.nullStamp {
+				// A stamp list with a hole in it is not a well-formed request: whether it is refused
+				// or the hole ignored is not asserted (raw option data replaces the list, Go options
+				// add to it). What is: nothing panics on any path and the source is untouched.
+				x.Probe("stamp-option-list-with-null-entry")
+				data, optData := Marshal(src), o.jsonData()
+				for _, ep := range []string{epCLI, epBulk} {
+					ep := ep
+					if p := safely(func() {
+						if ep == epCLI {
+							_, _ = cli.Correct(context.Background(), &cli.CorrectOptions{ParseOptions: &cli.ParseOptions{Input: chunkedReader(x, "in", data, 0)}, Data: optData})
+						} else {
+							_, _ = bulkOne(x, map[string]any{"action": "correct", "req_id": "r", "payload": map[string]any{"data": data, "options": optData}}, 0, nil)
+						}
+					}); p != "" {
+						x.Violate("correct:panic:"+ep, "entry point %s panicked on a stamp option list with a null entry: %s\n  history: %s", ep, p, H0)
+						return
+					}
+				}
+				x.Step(i, "slot", op.K, "nullstamp|"+errKey(lerr))
+				continue
+			}
 			if refuse != "" {
 				x.Probe("refused-" + refuse)
 				x.R.Nontrivial = true
@@ -577,7 +612,7 @@ func execC16(x *X) {
 				x.Violate("refused-unexpectedly:"+firstWords(lerr.Error(), 4), "correction of %s with type %q and options %v was refused although the published definitions allow it: %v\n  history: %s", d.Name, o.typ, op.L, lerr, H0)
 				return
 			}
-			if lerr == nil && !o.raw && len(o.stamps) == 0 {
+			if lerr == nil && !o.raw && len(o.stamps) == 0 && !o.nullStamp {
 				// A caller that keeps its options in one bill.CorrectionOptions value and uses it
 				// again: the value must come back unchanged, and the same request must give the
 				// same correction the second time.
@@ -823,6 +858,35 @@ func c16checkCorrection(x *X, d *Doc, srcTree *JV, src, res *gobl.Envelope, o *c
 			bad("preceding-stamp", "preceding[0] lacks the required stamp %q with the source's/option's value (found %q)", s, found)
 		}
 	}
+	if o.copyTax {
+		// the source's tax summary is carried along: the same categories, each retained or not as
+		// in the source, with the same rate rows (amounts are recalculated and not compared)
+		shape := func(t *JV) string {
+			var out []string
+			if t == nil || t.Get("categories") == nil {
+				return ""
+			}
+			for _, c := range t.Get("categories").A {
+				row := c.Get("code").Str() + ":retained=" + fmt.Sprint(c.Get("retained") != nil && c.Get("retained").K == 't') + ":"
+				var rs []string
+				if c.Get("rates") != nil {
+					for _, r := range c.Get("rates").A {
+						rs = append(rs, r.Get("key").Str()+"/"+r.Get("percent").Str()+"/"+r.Get("surcharge").Get("percent").Str())
+					}
+				}
+				sort.Strings(rs)
+				out = append(out, row+strings.Join(rs, ","))
+			}
+			sort.Strings(out)
+			return strings.Join(out, ";")
+		}
+		if st := sd.Get("totals").Get("taxes"); st != nil {
+			if a, b := shape(st), shape(p0.Get("tax")); a != b {
+				bad("copy-tax-shape", "copy_tax: preceding[0].tax does not have the source's tax categories and rate rows\n  source    %s\n  preceding %s", a, b)
+			}
+			x.Probe("copy-tax-compared")
+		}
+	}
 	date := rd.Get("issue_date").Str()
 	if o.date != "" {
 		if date != o.date {
@@ -842,6 +906,22 @@ func c16inputs(doc *JV) string {
 		if v := doc.Get(k); v != nil {
 			c := v.Clone()
 			sb.WriteString(k + "=" + string(c.Encode(nil)) + ";")
+		}
+	}
+	// what the document refers to (a replica of a correction still corrects the same document);
+	// amounts inside are recalculated and left out
+	if pre := doc.Get("preceding"); pre != nil && pre.K == 'a' {
+		for _, p := range pre.A {
+			if p == nil || p.K != 'o' {
+				continue
+			}
+			sb.WriteString("preceding:")
+			for _, k := range []string{"uuid", "type", "series", "code", "issue_date", "reason", "ext", "stamps"} {
+				if v := p.Get(k); v != nil {
+					sb.WriteString(k + "=" + string(v.Encode(nil)) + ",")
+				}
+			}
+			sb.WriteString(";")
 		}
 	}
 	if ls := doc.Get("lines"); ls != nil {
@@ -880,6 +960,23 @@ func c16checkReplica(x *X, d *Doc, srcTree *JV, src, res *gobl.Envelope, now tim
 		if (a == nil) != (b == nil) || (a != nil && !a.Equal(b)) {
 			bad("content-"+k, "replica's %s differs from the source's", k)
 		}
+	}
+	// what the document refers to: a replica of a correction still corrects the same document
+	// (stamps are header material of the referenced document and are dropped with the rest)
+	refs := func(doc *JV) string {
+		var sb strings.Builder
+		if pre := doc.Get("preceding"); pre != nil && pre.K == 'a' {
+			for _, p := range pre.A {
+				for _, k := range []string{"uuid", "type", "series", "code", "issue_date", "reason"} {
+					sb.WriteString(k + "=" + p.Get(k).Str() + ",")
+				}
+				sb.WriteString(";")
+			}
+		}
+		return sb.String()
+	}
+	if a, b := refs(sd), refs(rd); a != b {
+		bad("content-preceding", "the replica does not refer to the documents the source refers to: source %q, replica %q", a, b)
 	}
 	sl, rl := sd.Get("lines"), rd.Get("lines")
 	if (sl == nil) != (rl == nil) || (sl != nil && len(sl.A) != len(rl.A)) {
